@@ -10,7 +10,8 @@ from . import common
 from .common import Corr
 
 ID = "C13"
-LEAN_MODULES = ["TempestVerif.Props.C13", "TempestVerif.Props.C13LogLike", "TempestVerif.Props.C13Run", "TempestVerif.Props.C13Pipeline"]
+LEAN_MODULES = ["TempestVerif.Props.C13", "TempestVerif.Props.C13LogLike", "TempestVerif.Props.C13Run", "TempestVerif.Props.C13Pipeline",
+                "TempestVerif.Props.C13Source", "TempestVerif.Props.C13SourceTie"]
 RULE = ("(a) dispatch: the real SamplerCore._get_distribute_func/_log_like for every pool setting (None, 0, 1, 2 (thorough: real "
         "process pool), bool, pool-like objects) x vectorize vs the model interpreting the dispatch table regenerated from source "
         "(which strategy is used, or an error). (b) transparency: seeded real runs with the same pointwise likelihood evaluated "
@@ -58,8 +59,8 @@ ASSUMPTIONS = ["likelihood is deterministic (a pure function of the point and th
 
 
 def translators():
-    from translate import g6_dispatch
-    return [g6_dispatch.generate()]
+    from translate import g6_dispatch, g21_loglike
+    return [g6_dispatch.generate(), g21_loglike.generate()]
 
 
 def _quiet():
